@@ -7,7 +7,7 @@ CLAIMED = {
    text="Generated secret configurations, minting-secret relations and named single edits of tokens are decided by a reference that recomputes the MAC over the decoded parts; every credential kind is also mutated end to end and JWT access tokens are manipulated (none, HS256 with the public key, re-signing, part swaps). Minting is sampled (thousands per kind) for distinctness, length and bit balance.",
    note="Trusted: crypto/hmac, encoding/base64, go-jose. Non-canonical base64 that decodes to identical bytes and the JSON serialisation of an unmodified JWS are not forgeries (unspecified). Entropy is checked as length + distinctness + bit balance, not with a statistical suite.", ref="DESIGN.md 4 C06"),
  "C10": dict(level="exploration", technique="property-based testing (rapid) over registration x transport x secret relation x endpoint with an independently computed necessary condition and a storage recorder",
-   text="Requests that are valid except for client authentication are generated for every endpoint; acceptance without proof (valid secret through a permitted transport, or valid assertion) is a violation, refused requests must be invalid_client / invalid_request and must not touch code/token records, canonical valid credentials must pass. Real bcrypt.",
+   text="Requests that are valid except for client authentication are generated for every endpoint; acceptance without proof (valid secret through a permitted transport, or valid assertion) is a violation, refused requests must be invalid_client / invalid_request and must not touch code/token records, canonical valid credentials must pass. Real bcrypt; some requests arrive with a context that has already ended (they may fail, they prove nothing).",
    note="Trusted: the harness' reading of 'permitted transport' per token_endpoint_auth_method (DESIGN.md 4 C10). Mixed presentations (right secret in one transport, wrong in another) are only constrained by the necessary condition.", ref="DESIGN.md 4 C10"),
  "C11": dict(level="exploration", technique="property-based testing (rapid) with a component grammar for registered URIs and named near-miss edits, oracle on the written response bytes; native fuzzing of the requested redirect_uri in the thorough tier",
    text="Any Location / form action written by the authorization endpoint (success, redirected error, after PAR) is checked against the registered set (string identity or the loopback rule via net/netip); requests whose redirect_uri does not qualify per an independent reference must not be redirected.",
@@ -35,8 +35,8 @@ CLAIMED = {
    text="Model-based generated histories (authorize/redeem/refresh/revoke/advance over 3 clients, 2 stores, HMAC/JWT, 3 refresh-scope configurations) with a three-valued reference model; every step is followed by introspection of every token ever received. Held on everything explored; not a proof.",
    note="Trusted: the reference model (transcription of the statement, DESIGN.md app. C), the harness integrator, rapid. The hybrid authorization-endpoint access token is unspecified after a replay.", ref="DESIGN.md 3, 4 C01"),
  "C02": dict(level="exploration", technique="stateful property-based testing (rapid state machine) with storage recorder against a reference model",
-   text="Generated sequences of wrong and right redemption attempts per code (client, redirect_uri spelling, smuggled parameters, age) inside longer histories; refused attempts must issue nothing (storage recorder), leave the code usable, and tokens must carry exactly the consented grant.",
-   note="Trusted: reference model, recorder wrapper. redirect_uri omitted at authorization => no binding expected; SanitationWhiteList left at default.", ref="DESIGN.md 4 C02"),
+   text="Generated sequences of wrong and right redemption attempts per code (client, redirect_uri spelling, smuggled parameters, age) inside longer histories; refused attempts must issue nothing (storage recorder), leave the code usable, and tokens must carry exactly the consented grant. Some redemptions run while a look-up of the code fails in the store (plain error or fosite.ErrSerializationFailure); some worlds use fosite's own session types.",
+   note="Trusted: reference model, recorder wrapper. redirect_uri omitted at authorization => no binding expected; SanitationWhiteList left at default (C20 varies it).", ref="DESIGN.md 4 C02"),
  "C03": dict(level="exploration", technique="property-based testing (rapid): generated attempt sequences against an RFC 7636 reference predicate",
    text="Every attempt in a generated sequence is decided by an independent reference (well-formedness + S256/plain transformation + enforcement policy), regardless of earlier attempts and of injected failures of the PKCE lookup; both directions asserted (forbidden attempts refused, the decisive correct attempt accepted).",
    note="Trusted: refspec PKCE predicate. Enforcement may be switched on after the code was issued (operator action).", ref="DESIGN.md 4 C03"),
@@ -50,13 +50,13 @@ CLAIMED = {
    text="Short generated lifetimes and time advances around every expiry the model knows; each credential kind is presented at its endpoint and introspected on both sides of the expiry advertised in the response (+-2 s margin).",
    note="Trusted: the syntactic clock overlay (self-tested). Refusal class for expired codes/refresh tokens is not asserted (not stated by the property).", ref="DESIGN.md 2.2, 4 C07"),
  "C08": dict(level="exploration", technique="stateful property-based testing (rapid state machine) against a reference model; per-step introspection invariant",
-   text="Generated revocations at every history position (token kind incl. hybrid authorization-endpoint token, hint, caller, token state); effect, completeness (token issued alongside) and owner restriction are compared with the model after every step.",
+   text="Generated revocations at every history position (token kind incl. hybrid authorization-endpoint token, hint, caller, token state); effect, completeness (token issued alongside) and owner restriction are compared with the model after every step. Histories include two refreshes of one token interleaved at storage-call granularity; an accepted owner revocation makes the token inactive whatever its state was.",
    note="Trusted: reference model. Siblings other than the token issued alongside are unspecified; revoking an expired token leaves its sibling unspecified.", ref="DESIGN.md 4 C08"),
  "C09": dict(level="exploration", technique="stateful property-based testing: the per-step introspection invariant plus generated endpoint queries (caller credentials, hints, required scopes, token mutants)",
-   text="Every token ever seen is introspected after every step of arbitrary histories and compared (active flag, kind, client, subject, scopes, audience, expiry) with the model; the endpoint is queried with every caller credential class.",
+   text="Every token ever seen is introspected after every step of arbitrary histories and compared (active flag, kind, client, subject, scopes, audience, expiry) with the model; the endpoint is queried with every caller credential class (secrets right and wrong, bearer tokens of every state, a public client merely named).",
    note="Trusted: reference model. Stateless JWT introspector not in scope of revocation. Refresh-token exp not compared.", ref="DESIGN.md 4 C09"),
  "C16": dict(level="exploration", technique="stateful property-based testing (rapid state machine) on the reference store and a contract-following store",
-   text="Generated device-flow histories (authorization, decision, polling by right/wrong client, replay, time advance); single-reason refusal classes, at-most-once, revocation on replay with the contract-following store, code distinctness.",
+   text="Generated device-flow histories (authorization, decision, polling by right/wrong client, replay, time advance); single-reason refusal classes, at-most-once, revocation on replay with the contract-following store (also while the access-token revocation fails: refresh tokens still die), code distinctness.",
    note="Trusted: reference model, the harness TxStore (documented storage contract) and integrator-side user decision.", ref="DESIGN.md 4 C16"),
  "C17": dict(level="exploration", technique="stateful property-based testing (rapid state machine) against a reference model",
    text="Generated push/use histories (right/wrong client, twice, after expiry, conflicting query parameters); one-time use, client binding, expiry and authority of the pushed values.",
